@@ -96,6 +96,7 @@ class _CountingHandle(object):
 
     def write(self, b):
         COUNT['bytes'] += len(bytes(b))
+        COUNT.setdefault('marks', []).append(COUNT['bytes'])       # where each write() call ended: a natural place for a crash
         return self.real.write(b)
 
     def __getattr__(self, k):
@@ -118,6 +119,7 @@ def observed_record_ends(fn, *a, **k):
         f = open(p, mode, *aa, **kk)
         if ('w' in mode or 'a' in mode or '+' in mode) and str(p).endswith('fit.out'):
             COUNT['bytes'] = 0
+            COUNT['marks'] = []
             return _CountingHandle(f)
         return f
 
@@ -207,7 +209,7 @@ def run(ctx):
                'the end offset of every record is observed at the writing boundary (position of the output handle after each FitInfoFile.write), so nothing is assumed about the on-disk layout', 'a clean end after fewer records than were complete is an exact prefix and is accepted')
     ctx.require_events('truncated-read', 'outcome:exception', 'outcome:clean-end', 'enospc-run', 'enospc:prefix-on-disk', 'FitInfoFile.write:post')
     ctx.require_regimes('with-fluxes', 'without-fluxes', 'records=1', 'records>=3', 'cut:before-first-record-complete', 'cut:in-later-record', 'cut:on-boundary',
-                        'records:large', 'records:equal-size', 'enospc:over-an-existing-longer-file', 'enospc:over-an-earlier-run-of-the-same-job')
+                        'records:large', 'records:thousands-of-fits', 'records:equal-size', 'enospc:over-an-existing-longer-file', 'enospc:over-an-earlier-run-of-the-same-job')
     n_files = 8 if ctx.quick else 64
     prev_blob = None
     for ifile in range(n_files):
@@ -218,6 +220,9 @@ def run(ctx):
         # record sizes from a few hundred bytes to tens of kilobytes (number of models kept per source)
         big = ifile % 8 in (5, 6)
         nmod = int(frng.choice([40, 150, 400])) if big else None
+        if ifile % 8 == 6:
+            nmod = int(frng.integers(5200, 6500))          # thousands of fits per record (a whole grid kept: ('A', 0))
+            ctx.regime('records:thousands-of-fits')
         if big:
             ctx.regime('records:large')
         try:
@@ -226,6 +231,7 @@ def run(ctx):
         except Exception as exc:
             ctx.violation('fit-raised', 'fit() raised while producing the file: %r' % (exc,), {'n_rec': n_rec})
             continue
+        write_marks = [m_ for m_ in COUNT.get('marks', []) if m_ is not None][:2000]
         full = read_all(path)
         size = os.path.getsize(path)
         if len(full) != n_rec:
@@ -249,9 +255,11 @@ def run(ctx):
             near = set()
             for e in [0] + rec_ends:
                 near.update(range(max(0, e - 96), min(size, e + 96)))
+            for e in write_marks:              # ... and around every place where a write() call of the writer ended
+                near.update(range(max(0, e - 2), min(size, e + 3)))
             near.update(range(0, size, max(1, size // 4000)))
             offsets = sorted(near, reverse=True)
-            ctx.extra['exhaustive_subspace'] = 'truncation offsets 0..len-1 of every generated file up to 20 kB; larger files: all offsets within 96 bytes of a record end + a stride'
+            ctx.extra['exhaustive_subspace'] = 'truncation offsets 0..len-1 of every generated file up to 20 kB; larger files: all offsets within 96 bytes of a record end, within 2 bytes of the end of every write() call of the writer, + a stride'
         for t in offsets:
             os.truncate(work, t)
             if not ctx.mine(t):
